@@ -19,6 +19,7 @@ TEXT = {
  "C09": ("model_checking", "vam's real granularity handler under both real block algorithms; page disjointness of conflicting kinds decided by the solver for all sizes and alignments within bounded histories."),
  "C10": ("fault_enumeration", "Fault decisions are symbolic Booleans at every fallible driver call, so the solver covers every fault position of every explored operation; after each failure the no-trace conditions are asserted against device ground truth."),
  "C11": ("model_checking", "Histories on devices with small heap limits and allocation-count limits and on custom pools; limits and mode flags are asserted after every call. The concurrent race clause is not covered."),
+ "C12": ("exploration", "Reduced strength, stated as such: bounded schedule exploration (two goroutines, seven operation pairs from the statement, at most two pre-emptions) inside the symbolic executor with a happens-before race monitor and deadlock detection; races are confirmed natively with the Go race detector. The property's quantifier (all interleavings of arbitrary concurrent use) is not reached."),
  "C14": ("model_checking", "Pointers returned by Map are compared with the simulated device's base address plus the allocation's current offset across hysteresis-crossing scripts and defragmentation moves; mapping balance is checked after every event."),
  "C19": ("model_checking", "findMemoryTypeIndex / findMemoryPreferences / calcAllocationParams are executed on a symbolic memory type table and compared clause by clause with a specification written from the property text (tables of 3 to 6 types)."),
  "C20": ("model_checking", "Histories followed by freeing everything (or deliberately leaking one allocation) and tearing down pools and allocator on the simulated device."),
@@ -44,7 +45,7 @@ for p in props:
             "property_id": pid, "quick_cmd": f"./check {pid} quick", "thorough_cmd": f"./check {pid} thorough",
             "evidence_file": f"evidence/{pid}.json", "replay_cmd_template": "./check --replay {path}", "engine": "symgo",
             "level_claimed": {"category": lvl, "text": text, "design_ref": "DESIGN.md section 4 (" + pid + ")"},
-            "level_note": NOTE, "technique": "SMT-based symbolic execution of the real Go code (go/ssa -> bit-vector SMT, z3), bounded shapes, native replay"})
+            "level_note": NOTE, "technique": ("schedule exploration in the SMT-based symbolic executor (scheduler choices as decisions, happens-before race monitor), native confirmation with go test -race" if pid == "C12" else "SMT-based symbolic execution of the real Go code (go/ssa -> bit-vector SMT, z3), bounded shapes, native replay")})
     else:
         man["not_applicable"].append({"property_id": pid, "reason": NA.get(pid, "no solver-based check has been built for this property yet (work in progress; see DESIGN.md)")})
 json.dump(man, open('/verif/MANIFEST.json', 'w'), indent=1)
